@@ -62,3 +62,7 @@ TEXT = {'technique': 'model-based property testing (rapid): generated definition
  'level_note': 'Trusts the reference container in props/c10. Names N0..N5 plus one undefined name; deterministic factories; concurrency out of scope '
                '(the statement does not mention it). Same-kind duplicate definitions and re-run counts after failures are not judged.',
  'design_ref': 'DESIGN.md 4/C10'}
+
+# native coverage-guided campaign over the rapid generator (hx.FuzzRapid), thorough tier only
+CHECK['tiers']['thorough'].append({'test': '^$', 'fuzz': '^FuzzProgram$', 'fuzztime': '90s', 'gomaxprocs': 4, 'timeout': 400})
+TEXT['technique'] += '; thorough adds a native coverage-guided go fuzzing campaign over the same generator (rapid.MakeFuzz)'
